@@ -23,6 +23,11 @@ MODULE = 'Props.C02'
 THEOREMS = ['Vakt.C02.fault_denies', 'Vakt.C02.policy_raise_denies', 'Vakt.C02.allow_sound',
             'Vakt.C02.fault_monotone', 'Vakt.C02.ctx_rule_raise_propagates', 'Vakt.C02.ctx_junk_raises',
             'Vakt.C02.ctx_nondict_raises']
+# is_allowed_check as written in /repo/vakt/guard.py (storage call, None guard, evaluation, catch-all handler), translated
+# in this run, is the model's isAllowed for every storage answer (lean/Gen/EquivGuard.lean)
+EXTRA_BUILD = ['+Gen.EquivGuard']
+GEN_IMPORTS = ['Gen.EquivGuard']
+GEN_THEOREMS = ['Vakt.GenEquiv.gen_is_allowed_check', 'Vakt.GenEquiv.gen_check_policies_allow_lazy']
 FLOOR = {'quick': 300, 'thorough': 5000}
 ASSUMPTIONS = ['BaseException subclasses that are not Exception (KeyboardInterrupt, SystemExit), MemoryError and '
                'RecursionError inside the interpreter are outside the property ("any Exception subclass")']
